@@ -400,8 +400,10 @@ void DeclarationBinder::handleNonTypedefDeclarator(const DeclaratorSyntax* node)
                                             break;
                                         }
                                         case TypeDeclarationCategory::Typedef:
-                                            PSY_ASSERT_1(false);
-                                            return;
+                                            // The (abstract) declarator of a type name within
+                                            // the (invalid) initializer of a typedef.
+                                            bindDeclaration<VariableDeclarationSymbol>(node);
+                                            break;
                                     }
                                     break;
                                 }
